@@ -1,63 +1,18 @@
 (* Case checker for C04 (lines fit the width, are greedily filled, truncation honoured): same cases and
    correspondence as Check/C02.v; kind 4 = the C04 oracle (check_width_truncation) fails on the
-   implementation's output.  Narrow classifications of known findings:
-   (kind 11, F8 - text + truncator wider than maxWidth on the truncated line - is repaired in the library and no longer
-                  classified: it would be reported as kind 4);
-   kind 10 (F7) = only lines fail whose span (up to the next valid UAX #14 candidate for the greedy clause) contains a
-                  UAX #14 break opportunity that lies strictly inside a shaped cluster, policy other than Never;
-   kind 12 (F22) = only lines fail whose span contains a UAX #14 opportunity that is not a grapheme cluster boundary, or
-                  fewer than k lines were returned with a truncator on such a paragraph (a nil line was produced). *)
+   implementation's output.  No classification of known findings is left:
+   kind 10 (F7 - lines over-wide or not greedily filled around a UAX #14 opportunity strictly inside a shaped cluster, policy
+            other than Never), kind 11 (F8 - text + truncator wider than maxWidth on the truncated line) and kind 12 (F37 -
+            lines around a UAX #14 opportunity that is not a grapheme cluster boundary) are repaired in the library and
+            would be reported as kind 4. *)
 From TV Require Export Check.C02 Check.C03.
 
-Record lfail := mkLF { lf_i : Z; lf_s : Z; lf_e : Z; lf_line : list out; lf_w : Z; lf_width : bool; lf_greedy : bool; lf_misplaced : bool }.
-
-Fixpoint c04_failing (attrs : list Z) (st0 st1 : store) (rs : list out) (n tsrc pdir policy trunc_k tadv : Z) (measurable : bool)
-         (i : Z) (lines : list (list out)) (spans : list (Z * Z)) (widths : list Z) : list lfail :=
-  match lines, spans with
-  | line :: lrest, (s, e) :: srest =>
-      let w := match widths with x :: _ => x | [] => 0 end in
-      let truncating := (0 <? trunc_k) && (i =? trunc_k - 1) in
-      let a := negb (width_ok attrs st0 st1 rs n tsrc pdir policy tadv line s e w) in
-      let b := negb (truncating || negb measurable || greedy_ok attrs st0 rs n pdir policy s e w) in
-      let d := negb (truncating || negb (has_truncator tsrc line)) in
-      (if a || b || d then [mkLF i s e line w a b d] else [])
-      ++ c04_failing attrs st0 st1 rs n tsrc pdir policy trunc_k tadv measurable (i + 1) lrest srest (tl widths)
-  | _, _ => []
-  end.
-
-Definition exists_between_incl (a b : Z) (f : Z -> bool) : bool :=   (* a < p <= b *)
-  negb (forall_between a (b + 1) (fun p => negb (f p))).
-
-Definition intra_cluster_candidate (attrs : list Z) (st : store) (rs : list out) (p : Z) : bool :=
-  line_boundary attrs p && negb (cluster_boundary st rs p).
-
-Definition f_stop (attrs : list Z) (st0 : store) (rs : list out) (n policy : Z) (f : lfail) : Z :=
-  if lf_greedy f then
-    match first_from (lf_e f + 1) (Z.to_nat (n - lf_e f)) (word_break_ok attrs st0 rs n) with Some p => p | None => n end
-  else lf_e f.
-
-Definition f7_line (attrs : list Z) (st0 : store) (rs : list out) (n tsrc policy : Z) (f : lfail) : bool :=
-  negb (lf_misplaced f) && negb (policy =? 1) && negb (has_truncator tsrc (lf_line f))
-  && exists_between_incl (lf_s f) (f_stop attrs st0 rs n policy f) (intra_cluster_candidate attrs st0 rs).
-
 Definition c04_kind (c : case) (st0 st1 : store) (cl : call) : nat :=
-  if negb (adv_consistent st0 (case_runs c) && nonneg_adv st0) then 0%nat
+  if negb (nonneg_adv st0) then 0%nat       (* the property's sign hypothesis *)
   else
-    let attrs := k_attrs c in let n := case_n c in let rs := case_runs c in let tsrc := case_tsrc c in
-    let lines := call_lines cl in
-    if check_width_truncation attrs n rs st0 st1 tsrc (cl_dir cl) (cl_policy cl) (cl_trunc cl)
-            (cl_cont cl) (o_adv (case_truncator c)) lines (call_line_widths cl) (call_truncated cl)
+    if check_width_truncation (k_attrs c) (case_n c) (case_runs c) st0 st1 (case_tsrc c) (cl_dir cl) (cl_policy cl) (cl_trunc cl)
+            (cl_cont cl) (o_adv (case_truncator c)) (call_lines cl) (call_line_widths cl) (call_truncated cl)
     then 0%nat
-    else if negb (truncation_ok n tsrc (cl_trunc cl) (cl_cont cl) lines (call_truncated cl)) then
-      (if exists_in 1 (n - 1) (lb_not_gb attrs n) && (zlen lines <? cl_trunc cl) then 12%nat else 4%nat)
-    else
-      let fl := c04_failing attrs st0 st1 rs n tsrc (cl_dir cl) (cl_policy cl) (cl_trunc cl) (o_adv (case_truncator c))
-                  (measurable_runs st0 rs) 0 lines (line_spans tsrc 0 lines) (call_line_widths cl) in
-      let is7 := f7_line attrs st0 rs n tsrc (cl_policy cl) in
-      let is22 := fun f => exists_in (lf_s f) (f_stop attrs st0 rs n (cl_policy cl) f) (lb_not_gb attrs n) in
-      (* every failing line must match one of the narrow predicates; the kind reported is that of the first class present *)
-      if forallb (fun f => is7 f || is22 f) fl then
-        (if existsb is7 fl then 10%nat else 12%nat)
-      else 4%nat.
+    else 4%nat.
 
 Definition check_all (cs : list case) : list (nat * nat) := check_from c04_kind 0 cs.
